@@ -147,7 +147,7 @@ mod f {
     pub const SCRATCH_SHORT: usize = 9;
     pub const NAMES: [&str; 10] = [
         "writer_hard_error_fired",
-        "writer_returned_ok_0",
+        "writer_answers_ok_0_forever",
         "writer_flush_failed",
         "writer_interrupted",
         "writer_short_write",
@@ -193,7 +193,8 @@ fn ev_dev(out: &mut Outcome<C11Trace>, who: &str, events: &[(u8, u32, u32)]) {
                 b'r' => "read delivered",
                 b'E' => "HARD ERROR",
                 b'I' => "Interrupted",
-                b'Z' => "write returned Ok(0)",
+                b'z' => "write returned Ok(0) once",
+                b'Z' => "write returns Ok(0) from now on",
                 b'0' => "read returned Ok(0) (end of stream)",
                 b'F' => "flush FAILED",
                 b'f' => "flush ok",
@@ -230,16 +231,29 @@ fn write_chain(c: &WCfg, out: &mut Outcome<C11Trace>) -> Result<Vec<u8>, Fail> {
         for (i, m) in c.msgs.iter().enumerate() {
             let (fired_before, intr_before) = {
                 let l = log.borrow();
-                (l.any_fault_fired(), l.interrupted)
+                (l.any_fault_fired(), l.interrupted + l.zero_once)
             };
             let r = write_one(c.adapter, m, writer.take().unwrap());
             out.evals += 1;
             let l = log.borrow();
-            if l.cap_hit {
+            if l.cap_hit && l.zero_answers <= 1000 {
                 return Err(Fail { clause: "harness-cap", detail: String::new() });
             }
             let fired_now = l.any_fault_fired() && !fired_before;
-            let interrupted = l.interrupted > intr_before;
+            // Interrupted and a one-off Ok(0) are not failures of the writer: the library may retry
+            // or give up; either way only integrity is judged
+            let interrupted = l.interrupted + l.zero_once > intr_before;
+            if l.cap_hit && l.zero_answers > 1000 {
+                return Err(Fail {
+                    clause: "does-not-terminate",
+                    detail: format!(
+                        "the writer answered Ok(0) {} times after {} accepted bytes and the library kept calling write ({} calls)",
+                        l.zero_answers,
+                        l.accepted.len(),
+                        l.calls
+                    ),
+                });
+            }
             let r = match r {
                 Ok(r) => r,
                 Err(pmsg) => {
@@ -706,7 +720,8 @@ fn read_chain_inner(
                 report.avail.push(cur_len);
                 report.decoded += 1;
                 reader = Some(ok.reader);
-                cur_addr = ok.rest_addr;
+                // (an empty remainder may point anywhere; continue at the end of this scratch)
+                cur_addr = if ok.rest_len == 0 { cur_end } else { ok.rest_addr };
                 cur_len = ok.rest_len;
             }
             Err(e) => {
@@ -813,7 +828,10 @@ fn exec_c11(t: &C11Trace, out: &mut Outcome<C11Trace>) {
         }
     }
     // ---------------- reader ----------------
-    let writer_clean = t.wfault.map_or(true, |k| k >= total_w) && !t.flush_err && !t.wscript.contains(&WStep::Zero);
+    let writer_clean = t.wfault.map_or(true, |k| k >= total_w)
+        && !t.flush_err
+        && !t.wscript.contains(&WStep::Zero)
+        && !t.wscript.contains(&WStep::ZeroForever);
     let mut stream: Vec<u8> = if t.pipe && writer_clean && wire.len() == total_w {
         out.probe(p::PIPE_ROUNDTRIP);
         wire
@@ -1101,7 +1119,7 @@ fn gen_wscript(rng: &mut Rng, std: bool, intr_eio: bool) -> Vec<WStep> {
     }
     if std && rng.chance(1, 25) {
         let i = rng.usize_below(v.len() + 1);
-        v.insert(i, WStep::Zero);
+        v.insert(i, if rng.chance(1, 2) { WStep::Zero } else { WStep::ZeroForever });
     }
     v
 }
